@@ -171,3 +171,15 @@ func VerifC16NameKernelsCamel() {
 	_ = annotations.LowerFirst(camel)
 	verif.Reach("C16/kernels/camel")
 }
+
+// VerifC16AnswersForAnyHTTPConfig: for every HTTP configuration of a method — valid or breaking a
+// rule (a path variable without a field, a field bound twice, more bound names than the request
+// has fields, unbound fields under a bodiless verb) — both Go generators answer with files or
+// with an error; they never panic and stay within the work budget.
+func VerifC16AnswersForAnyHTTPConfig() {
+	files, _ := c12HTTPFiles()
+	verif.Budget("go-http", 3000000, 20000, func() { _ = New(&protogen.Plugin{Files: files}).Generate() })
+	verif.Budget("go-http+mock", 3000000, 20000, func() { _ = NewWithOptions(&protogen.Plugin{Files: files}, Options{GenerateMock: true}).Generate() })
+	verif.Budget("go-client", 3000000, 20000, func() { _ = clientgen.VerifGenerate(files) })
+	verif.Reach("C16/http-config/decided")
+}
